@@ -381,6 +381,11 @@ class Check:
               'axioms reported by Print Assumptions under the property theorems: ' + (', '.join(axioms) if axioms else 'none (closed under the global context)'),
               'extraction (ExtrOcamlBasic only) + ocaml/*.ml driver for the executable model',
               'correspondence harness harness/%s.py, CPython/numpy/scipy/networkx/pandas as installed' % self.prop.lower()]
+        used = {'C07': ['cdp'], 'C15': ['domain'], 'C05': ['budget'], 'C01': ['bp'], 'C08': ['bp'], 'C12': ['mp']}.get(self.prop, [])
+        for nm in used:
+            script, src, gen, _ = TRANSLATIONS[nm]
+            okt, msg = getattr(self, 'translators', {}).get(nm, (None, ''))
+            tb.append('translator translator/%s: coq/Gen/%s regenerated from %s on this run (%s)' % (script, gen, src, 'ok' if okt else ('FAILED: ' + str(msg)[:120]) if okt is not None else 'not run'))
         ev = dict(property_id=self.prop, tier=self.tier, seed=self.seed, level='proof',
                   coverage=dict(obligations=obligations, discharged=discharged,
                                 checker_cmd='make -C /verif/coq && coqc -Q . PGM Props/%s.v (Print Assumptions under every theorem); grep gate for Admitted/admit/Axiom/Parameter' % self.prop,
